@@ -43,8 +43,10 @@ class ScriptedStream(StreamInterface):
         # the library's own integer draw, fed with the scripted uniform (the wrapped generator is replaced)
         if getattr(self, "_mt", None) is None:
             self._mt = MersenneTwister(1)
-            if hasattr(self._mt, "_random"):
-                self._mt._random = self
+            import random as _rnd
+            attr = next((k for k, v in vars(self._mt).items() if isinstance(v, _rnd.Random)), None)      # found by type, not by private name
+            if attr is not None:
+                setattr(self._mt, attr, self)
             else:
                 self._mt = False
         if self._mt is False:
